@@ -106,7 +106,8 @@ def build(rnd, tier, flags):
     lay = layout.free_layout(flat, rnd, lo)
     meta["features"] = sorted(lay.features)
     case = {"canonical": gen.canonical_source(flat), "laid": lay.text, "std": std,
-            "names": lay.name_map if lo.namecase else {}, "meta": meta, "groups": progs.groups_of(flat, lay)}
+            "names": lay.name_map if lo.namecase else {}, "meta": meta, "groups": progs.groups_of(flat, lay),
+            "process_directives": False}   # process_directives forces comments to be kept (by design): not C04's configuration
     return case, progs.excluded_counts(g, lay)
 
 
@@ -117,15 +118,16 @@ def evaluate(case):
                                                     "semi_label_or_name", "comment_in_lit_cont", "trailing_on_cont"})
     labels = ["layout:" + f for f in feats]
     std = case["std"]
+    _pd = {"process_directives": True} if case.get("process_directives") else {}
     o1 = guarded_parse(case["canonical"], std=std)
     if o1.kind != "tree":
         return Result(True, None, False, labels, precondition_failed=True)
     mode = FortranStringReader(case["laid"]).format.mode
     if mode != "free":
         return Result(False, "detected-as:" + str(mode), nontrivial, labels, {"mode": mode})
-    o2 = guarded_parse(case["laid"], std=std)
+    o2 = guarded_parse(case["laid"], std=std, **_pd)
     if o2.kind != "tree":
-        kinds, chunk = progs.isolate_group(case, lambda t: guarded_parse(t, std=std).kind != "tree")
+        kinds, chunk = progs.isolate_group(case, lambda t: guarded_parse(t, std=std, **_pd).kind != "tree")
         return Result(False, "reject:%s:%s" % (o2.kind, kinds or meta.get("enum", "?")), nontrivial, labels,
                       {"error": o2.text, "culprit": chunk})
     d = tree_diff(o1.tree, o2.tree, names_lower=True)
